@@ -12,7 +12,8 @@ import TempestVerif.Lemmas.StateMgr
                    (`set_current/update_current(copy=False)`, "_current" section of `update_from_dict`)
     s.importedH    (ghost) the same for `_history`: only the "_history" section of `update_from_dict`
     poke / scribble  the caller overwrites an array it holds
-    observe s      payloads of everything readable: current values, every history entry, `compute_results()`
+    observe s      payloads of everything readable: current values, every history entry, `compute_results()`,
+                   `compute_logw_and_logz()`
 -/
 namespace Props.C17
 open Model.StateMgr
@@ -46,7 +47,8 @@ theorem C17_reach_iff (s : State) (a : Nat) :
   | some c => simp [cacheAddrs, mem_dictAddrs]
 
 /-- the invariant is preserved by every operation of the full alphabet (set/update with either copy flag, all
-    getters, commit, `compute_results`, `to_dict`, `update_from_dict`, and the caller's in-place writes) -/
+    getters, commit, `compute_results`, `compute_logw_and_logz`, `to_dict`, `update_from_dict`, and the caller's
+    in-place writes) -/
 theorem C17_step_inv (s : State) (o : Op) (h : Inv s) : Inv (step s o).1 :=
   (C17_inv_iff _).2 (step_inv s o ((C17_inv_iff s).1 h))
 
@@ -82,17 +84,32 @@ theorem C17_read_indep_of_scribble (s : State) (a : Addr) (p : Content) (h : Inv
   exact observe_poke (hI.esc_lt a hesc) (not_reach_of_inv hI hesc himp himpH)
 
 /-- even an array that was stored with `copy=False` is never shared with committed history or with the results:
-    overwriting it leaves every history read and `compute_results()` unchanged -/
+    overwriting it leaves every history read, `compute_results()` and `compute_logw_and_logz()` unchanged -/
 theorem C17_history_indep_of_scribble (s : State) (a : Addr) (p : Content) (h : Inv s)
     (hesc : a ∈ s.escaped) (himpH : a ∉ s.importedH) :
     (observe (step s (.scribble a p)).1).history = (observe s).history ∧
-    (observe (step s (.scribble a p)).1).results = (observe s).results := by
+    (observe (step s (.scribble a p)).1).results = (observe s).results ∧
+    (observe (step s (.scribble a p)).1).logw = (observe s).logw := by
   have hI := (C17_inv_iff s).1 h
   have hstep : (step s (.scribble a p)).1 = poke s a (some p) := by
     simp [step, hesc, poke]
   rw [hstep]
   exact observe_poke_hist (hI.esc_lt a hesc) (fun hr => himpH (hI.sepH a (Or.inl hr) hesc))
     (fun hr => himpH (hI.sepH a (Or.inr hr) hesc))
+
+/-- `compute_logw_and_logz` is an accessor like the others: what it returns is a new array, recorded as held by the
+    caller, not reachable from internal state (in particular not from any cache), and calling it changes no read -/
+theorem C17_logw_is_fresh (s : State) (beta : Int) (h : Inv s) :
+    ∃ a : Nat, (step s (.logw beta)).2 = .val (.ref a) ∧ a = s.next ∧ a ∈ (step s (.logw beta)).1.escaped ∧
+      a ∉ reach (step s (.logw beta)).1 ∧
+      (step s (.logw beta)).1.current = s.current ∧ (step s (.logw beta)).1.history = s.history ∧
+      (step s (.logw beta)).1.cache = s.cache := by
+  have hI := (C17_inv_iff s).1 h
+  refine ⟨s.heap.length, rfl, rfl, by simp [step], ?_, rfl, rfl, rfl⟩
+  intro hr
+  have : s.heap.length ∈ reach s := hr
+  have := hI.reach_lt _ this
+  omega
 
 /-- `imported` grows only through the opt-in operations, `importedH` only through `update_from_dict` … -/
 theorem C17_copy_false_is_opt_in (s : State) (o : Op) :
@@ -245,11 +262,12 @@ example : lookup "u" (observe (step (run init demoShare) (.scribble 0 [-9, -9]))
 /-- `C17_full` on a sequence with interleaved writes to everything the caller was given -/
 def demoFull : List Op :=
   demo ++ [.scribble 3 [-9, -9], .scribble 4 [-9, -9], .scribble 0 [7, 7], .getCurrent (some "u"),
-           .getHistory "u" (some 0) false, .scribble 5 [0, 0], .computeResults, .getLastHistory "u"]
+           .getHistory "u" (some 0) false, .scribble 5 [0, 0], .computeResults, .logw 1, .scribble 33 [],
+           .logw 1, .getLastHistory "u"]
 
 example : trace init demoFull = trace init (demoFull.filter (fun o => !o.isScribble)) :=
   C17_full demoFull (by decide)
-example : (trace init demoFull).length = 8 := by decide
+example : (trace init demoFull).length = 10 := by decide
 
 /-- `C17_commit_appends_one` / `C17_history_prefix_stable`: a second commit on `demo` -/
 example : lookup "u" (step (run init demo) (.commit false)).1.history = some [Val.ref 2, Val.ref 5] ∧
